@@ -1,6 +1,8 @@
 package checks
 
 import (
+	"encoding/json"
+	"fmt"
 	"time"
 
 	"github.com/magisterquis/curlrevshell/verifx/bworld"
@@ -8,7 +10,28 @@ import (
 )
 
 func init() {
-	registry["C01"] = checkDef{level: "model_checking", run: c01, replay: brokerReplayFunc}
+	registry["C01"] = checkDef{level: "model_checking", run: c01, replay: func(kind string, raw json.RawMessage) int {
+		if "c01http" == kind {
+			var rp struct {
+				Pair []c01Stream `json:"http_seam"`
+			}
+			if err := json.Unmarshal(raw, &rp); nil != err || 2 != len(rp.Pair) {
+				return 2
+			}
+			r := ev.New("C01", "quick", "model_checking")
+			c01HTTPPair(r, rp.Pair[0], rp.Pair[1])
+			if r.NViolations() > 0 {
+				for _, x := range r.Violations {
+					fmt.Println(x.Signature, "-", x.What)
+				}
+				fmt.Println("reproduced")
+				return 1
+			}
+			fmt.Println("not reproduced")
+			return 0
+		}
+		return brokerReplayFunc(kind, raw)
+	}}
 }
 
 // c01Profiles: attempts over equal, prefix-related, case-variant and empty
@@ -61,4 +84,7 @@ func c01(r *ev.Result, tier string) {
 		budget = 12 * time.Minute
 	}
 	exploreProfiles(r, budget, c01Profiles(isQuick(tier))...)
+	/* The HTTP seam: the same rule through the real handlers. */
+	c01HTTP(r)
+	r.Rule += "; plus the HTTP seam: every ordered pair of streams over /i/{id}, /o/{id} with ids {k, kk, K, k%2Fx, k%20, %6B} and /io through the real handlers over TLS, with a probe line and a probe chunk"
 }
